@@ -1,5 +1,6 @@
 (* C07 - a program that passes checking never fails or misbehaves at run time.
    Expression level: type soundness of the checker with respect to the evaluator. *)
+From HclV Require FrontSpec FrontWfSpec FrontWfProofs.
 From HclV Require Import Base Expr ExprSpec ExprLemmas ExprProofs Machine MachineSpec SchedSpec SchedProofs Build BuildSpec Generated BuildProofs.
 Open Scope N_scope.
 
@@ -85,3 +86,34 @@ Proof.
   exact (accept_program_ok_gen f il iu gen_fixed_ok gen_fixed_widths_ok stmts p Hwf Hb).
 Qed.
 Print Assumptions C07_accepted_programs_are_well_typed.
+
+(* ---- from program TEXT (FrontWfSpec.v / FrontWfProofs.v): the hypothesis "grammar-well-formed
+   statements" of the theorems above is what lexer and parser guarantee, so the property holds of
+   every text the front end accepts -------------------------------------------------------------- *)
+(* every statement the model front end produces from a (valid UTF-8) text is well formed: literals
+   fit their widths; literal, declared and slice widths are at most 128 *)
+Theorem C07_front_end_statements_are_well_formed :
+  FrontSpec.stmt_parse_wf /\ FrontWfSpec.stmt_lex_tokens_wf_utf8 /\ FrontWfSpec.stmt_text_stmts_wf /\
+  FrontWfSpec.stmt_parse_text_sp_wf.
+Proof.
+  split; [exact FrontWfProofs.parse_wf_holds |].
+  split; [exact FrontWfProofs.lex_tokens_wf_utf8_holds |].
+  split; [exact FrontWfProofs.text_stmts_wf_holds | exact FrontWfProofs.parse_text_sp_wf_holds].
+Qed.
+Print Assumptions C07_front_end_statements_are_well_formed.
+(* ANY text that lexer, parser and program builder accept - whatever the options, the Unicode
+   classification and the hash order - is a well-typed program; its initial state exists; every
+   state reachable by loading an image and stepping is well typed; step and run never fail except
+   by a division by zero (never a panic of the Rust code, never out of fuel) *)
+Theorem C07_any_accepted_text_runs_safely : FrontWfSpec.stmt_text_accepted_program_ok_and_runs.
+Proof. exact FrontWfProofs.text_accepted_program_ok_and_runs_holds. Qed.
+Print Assumptions C07_any_accepted_text_runs_safely.
+Theorem C07_any_accepted_text_is_well_typed : FrontWfSpec.stmt_text_to_program_ok_utf8.
+Proof. exact FrontWfProofs.text_to_program_ok_utf8_holds. Qed.
+Print Assumptions C07_any_accepted_text_is_well_typed.
+(* the first drafts, for arbitrary BYTES, are false of the model: its decoder accepts over-long
+   UTF-8 (C0 B0 read as '0'), which no Rust &str can contain *)
+Theorem C07_drafts_for_arbitrary_bytes_refuted :
+  ~ FrontSpec.stmt_lex_tokens_wf /\ ~ FrontSpec.stmt_text_to_program_ok.
+Proof. split; [exact FrontWfProofs.lex_tokens_wf_refuted | exact FrontWfProofs.text_to_program_ok_refuted]. Qed.
+Print Assumptions C07_drafts_for_arbitrary_bytes_refuted.
